@@ -10,7 +10,7 @@ static int mode;   /* 6 or 10 */
 /* =================================================================== C06 */
 static struct { arb arb; uint8_t apparent; } M6;
 static pev SV[64]; static int NSV;                 /* state alphabet */
-static const uint16_t SEQS[3] = {1, 0x0102, 0xFFFF};
+static const uint16_t SEQS[4] = {1, 0x0102, 0xFFFF, 0x0100};   /* 0x0100: low byte zero */
 static const uint8_t PAUSES[3] = {0, 1, 255};
 static const uint8_t PAIRS[3][2] = {{ST_S0, ST_PEER}, {ST_OWN, ST_S1}, {ST_S1, ST_BC}};
 static size_t fit(void) { return (W.iface[0].mtu - 34) / 14; }
@@ -120,7 +120,7 @@ static void run_family_here(void) {
     int heavy = !heavy_done[M6.arb.v][M6.apparent]; heavy_done[M6.arb.v][M6.apparent] = 1;
     int F = (int)fit();
 #define RUN(code) do { vf_restore(s, &M6, sizeof M6); path[p.n] = (code); e1_manual_path(&cfg6, path, p.n + 1); do_emit(code); emits_run++; } while (0)
-    for (int seqi = 0; seqi < 3; seqi++) {
+    for (int seqi = 0; seqi < 4; seqi++) {
         for (int idx = 0; idx < 18; idx++) RUN(emit_code(0, seqi, 1, idx));
         for (int idx = 0; idx < 324; idx++) RUN(emit_code(0, seqi, 2, idx));
         if (!heavy) continue;
@@ -154,7 +154,7 @@ static void build_state_alphabet(void) {
 /* =================================================================== C10 */
 /* interface 0 = responder A, interface 1 = responder B, one core instance serves both (as in the daemons) */
 static struct m10 { uint8_t qn; uint8_t q[3][32]; uint8_t delivered; } M10;   /* delivered: bit (srcidx*2+kind) */
-enum { X_DISC_A, X_DISC_A_BR, X_DISC_B, X_DELIVER, X_HELLO_B, X_PROBE_PEER_B, X_QUERY_B, X_QUERY_B_BR, X_RESET_B, X_OTHER_EMITTER_B, X_EMIT0 };
+enum { X_DISC_A, X_DISC_A_BR, X_DISC_B, X_DELIVER, X_HELLO_B, X_PROBE_PEER_B, X_QUERY_B, X_QUERY_B_BR, X_RESET_B, X_OTHER_EMITTER_B, X_QRESET_B, X_EMIT0 };
 static int QCAP = 3;                    /* bound on the in-flight queue (quick tier: 2) */
 static int NEMIT; static struct { uint8_t n; uint8_t d[2]; } EM[512];     /* descriptor code: kind | pause<<1 | dstB<<2 | srcA<<3 */
 static const uint8_t *addrA(void) { return W.iface[0].mac; }
@@ -169,7 +169,7 @@ static int towardsB(int ev) { int n = 0; for (int i = 0; i < EM[ev - X_EMIT0].n;
 
 static void x_name(int ev, char *buf, size_t cap) {
     static const char *n[] = {"Discover(M1)->A", "Discover(M1 via BR)->A", "Discover(M1)->B", "deliver oldest in-flight frame to B", "Hello(PEER)->B", "Probe(for PEER)->B",
-                              "Query(M1)->B", "Query(M1 via BR)->B", "Reset->B", "Train(from responder C, Ethernet source S0 as ordered by the mapper)->B"};
+                              "Query(M1)->B", "Query(M1 via BR)->B", "Reset->B", "Train(from responder C, Ethernet source S0 as ordered by the mapper)->B", "Reset(quick discovery)->B"};
     if (ev < X_EMIT0) { snprintf(buf, cap, "%s", n[ev]); return; }
     size_t o = (size_t)snprintf(buf, cap, "Emit(M1)->A[");
     for (int i = 0; i < EM[ev - X_EMIT0].n; i++) {
@@ -220,6 +220,7 @@ static void x_apply(int ev) {
             M10.delivered = 0; break; }
         case X_OTHER_EMITTER_B:     /* unrelated traffic: a third responder emits towards B with the same spoofed Ethernet source */
             fb_base(f, addrB(), vf_station[ST_S0], 0, 0x03, addrB(), vf_station[ST_PEER], 0); deliver_to(1, f, 32); break;
+        case X_QRESET_B: { pev e = ev_reset(1, ST_M1); len = pev_build(&e, 1, f); deliver_to(1, f, len); break; }     /* the quick-discovery service ends: the topology session's observations stay */
         case X_RESET_B: { pev e = ev_reset(0, ST_M1); len = pev_build(&e, 1, f); deliver_to(1, f, len); M10.delivered = 0; break; }
         default: {
             fb_desc d[2]; int n = EM[ev - X_EMIT0].n;
